@@ -325,7 +325,7 @@ template <class A> void run_object(vf::Ctx& c, int archId) {
 	if (ld(9)) for (auto& x : doc.mp) eval_inner(ex, "/mp/" + x.first, x.second, sp); { Facts f; f.loaded = ld(9); f.size = doc.mp.size(); eval_field(ex, "/mp", "mp", f, sp); }
 	{ Facts f; f.loaded = colSt == Present; f.pred = true; eval_field(ex, "/col", "col", f, sp); }
 	// load
-	Cfg cfg; cfg.stream = c.src.coin(); cfg.streamKind = cfg.stream ? static_cast<int>(c.src.draw(archId == MSGPACK ? 2 : 3)) : 0; cfg.chunk = 1 + c.src.draw(40);
+	Cfg cfg; cfg.stream = c.src.coin(); cfg.streamKind = cfg.stream ? gen_stream_kind(c.src, archId == MSGPACK) : 0; cfg.chunk = 1 + c.src.draw(40);
 	cfg.opt.mismatchedTypesPolicy = MismatchedTypesPolicy::Skip; cfg.opt.overflowNumberPolicy = OverflowNumberPolicy::Skip;
 	const size_t cap = choose(c.src, { 0, 0, 1, 1, 2, 3, 4, 8 }); cfg.opt.maxValidationErrors = static_cast<uint32_t>(cap);
 	size_t multi = 0; for (auto& f : ex.fails) if (f.second.size() > 1) multi++;
